@@ -730,7 +730,10 @@ pub fn run_sim(
         std::future::poll_fn(|cx| root.poll_root(cx)).await;
         let end_us = world::now_us();
         world::log(Ev::SimEnd);
-        world::with(|w| w.ended = true);
+        world::with(|w| {
+            w.end_us = end_us;
+            w.ended = true;
+        });
         let rep = SimReport {
             tasks: root.tasks.iter().map(|t| t.res.clone()).collect(),
             steps: root.steps,
